@@ -123,6 +123,8 @@ def catalogue():
         "tripleUnit": lambda a, b: a.tripleUnit(), "mirror": lambda a, b: fsr.mirror(a, b),
         "planeFromThreePoints": lambda a, b: fsr.planeFromThreePoints(a, b, a @ b), "getUnitVec": lambda a, b: fsr.getUnitVec(a, b),
         "angleBetween": lambda a, b: fsr.angleBetween(a, b, a @ b),
+        "add_zero": lambda a, b: a + 0, "sub_zero": lambda a, b: a - 0, "mul_one": lambda a, b: a * 1, "rmul_one": lambda a, b: 1 * a,
+        "div_one": lambda a, b: a / 1, "add_zero_array": lambda a, b: a + np.zeros(6),
     }
     S = {
         "add": lambda a, b: a + b, "sub": lambda a, b: a - b, "mul_scalar": lambda a, b: a * 2.5, "rmul_scalar": lambda a, b: 2.5 * a,
@@ -132,6 +134,10 @@ def catalogue():
         "rsub_array6": lambda a, b: A6.copy() - a, "add_scalar": lambda a, b: a + 0.5, "sub_scalar": lambda a, b: a - 0.5,
         "matmul_obj": lambda a, b: a @ b, "getitem_scalar": lambda a, b: a[2],
         "getForce": lambda a, b: a.getForce(), "getMoment": lambda a, b: a.getMoment(),
+        "radd_zero": lambda a, b: 0 + a, "radd_zero_float": lambda a, b: 0.0 + a, "sum_builtin": lambda a, b: sum([a]),
+        "add_zero": lambda a, b: a + 0, "sub_zero": lambda a, b: a - 0, "mul_one": lambda a, b: a * 1, "rmul_one": lambda a, b: 1 * a,
+        "div_one": lambda a, b: a / 1, "radd_scalar": lambda a, b: 0.5 + a, "rsub_scalar": lambda a, b: 0.5 - a,
+        "radd_array6": lambda a, b: A6.copy() + a, "add_zero_array": lambda a, b: a + np.zeros(6),
     }
     return {"tm": T, "screw": S, "wrench": S}
 
